@@ -3,6 +3,11 @@
 # evidence/replays to a scratch directory; prints one line per (seed, property). Used to measure
 # the alarm rate on the unchanged tree (must be zero) over many seeds.
 tier="$1"; shift
+# Under `vp run --with-repo` work against the snapshot of /repo's HEAD instead of /repo itself, so
+# that patches being tried in /repo meanwhile cannot disturb the sweep (only done in a snapshot).
+if [ -n "${VP_RUN_REPO:-}" ] && [ "$(cd "$(dirname "$0")" && pwd)" != /verif ]; then
+  sed -i "s#\"/repo#\"$VP_RUN_REPO#g" "$(dirname "$0")"/sim/*/Cargo.toml
+fi
 out="$(mktemp -d)"
 for seed in "$@"; do
   for p in C04 C05 C06 C07 C08 C09 C16 C18 C19 C20; do
